@@ -48,7 +48,7 @@ let qof (x : Obj.t) : q = Obj.obj x
 let zof (x : Obj.t) : z = Obj.obj x
 
 (* ---------- token stream ---------- *)
-let toks : string list ref = ref []
+let toks : String.t list ref = ref []
 let next () = match !toks with [] -> failwith "eol" | h :: t -> toks := t; h
 let int () = int_of_string (next ())
 let nat () = nat_of_int (int ())
@@ -211,7 +211,7 @@ let fam_jacobian () =
        out_qs (sub_jacobian numQ ly p fids nbn (nat_of_int nspec) (nat_of_int nrxn) (sp_nnz s) rcs ys jac))
 
 (* ---------- main ---------- *)
-let families : (string * (unit -> unit)) list ref = ref [
+let families : (String.t * (unit -> unit)) list ref = ref [
   ("dense", fam_dense); ("sparse", fam_sparse); ("forcing", fam_forcing); ("jacobian", fam_jacobian) ]
 
 let run_line line =
